@@ -31,7 +31,7 @@ BUDGET = {'quick': 30000, 'thorough': 600000}
 PROBES = ['dot-leading-line', 'bare-lf', 'bare-cr', 'no-final-newline',
           'empty-message', 'trailing-bytes', 'preloaded-buffer',
           'eod-split-across-reads', 'multi-part', 'lone-dot-line',
-          'variants-concurrent', 'size-limit-just-fits']
+          'variants-concurrent', 'size-limit-just-fits', 'over-size-limit']
 STATES_MEASURE = 'distinct (message class flags, segmenter) pairs'
 STEP_CAP = 300000
 ALPHA = [b'.', b'\r', b'\n', b'a', b'\r\n', b'\r\n', b'.\r\n', b'\xe9',
@@ -76,7 +76,8 @@ def generate(seed, tier='quick'):
             'sched_seed': rng.getrandbits(48),
             'parts': [p.hex() for p in parts], 'trailing': trailing.hex(),
             'variants': variants, 'concurrent': rng.random() < 0.4,
-            'max_size': rng.choice([None, None, 'exact', 'exact', 'room'])}
+            'max_size': rng.choice([None, None, 'exact', 'exact', 'room',
+                                    'small'])}
 
 
 def execute(scn, debug=False):
@@ -113,8 +114,8 @@ def execute(scn, debug=False):
 
             # a size limit the message just fits (or fits with room) must
             # change nothing, whatever the segmentation
-            ms = {None: None, 'exact': len(want), 'room': len(want) + 7}[
-                scn.get('max_size')]
+            ms = {None: None, 'exact': len(want), 'room': len(want) + 7,
+                  'small': max(1, len(want) // 2)}[scn.get('max_size')]
 
             def reader(b=b, out=out, preload=preload, ms=ms):
                 io_r = IO(b, ('r', 0))
@@ -126,8 +127,10 @@ def execute(scn, debug=False):
                     out['left'] = io_r.recv_buffer
                 except Exception as e:
                     out['exc'] = '%s: %s' % (type(e).__name__, e)
+                    out['left'] = io_r.recv_buffer
             gw = gevent.spawn(writer)
             gr = gevent.spawn(reader)
+            out['oversize'] = ms is not None and len(want) > ms
             started.append((gw, gr, b, out, mode, param, cap, preload))
             if scn.get('concurrent') and i + 1 < len(scn['variants']):
                 # all variants at once, each on its own sockets and IO
@@ -190,6 +193,27 @@ def _judge_variant(world, gw, gr, b, out, mode, param, cap, preload, want,
         return False
     out['unread'] = b.unread()
     results.append(out)
+    if out.get('oversize'):
+        # over the limit: refused, but consumed exactly like any other
+        # message - what follows the end-of-data line is left alone
+        world.probe('over-size-limit')
+        if not out.get('exc', '').startswith('MessageTooBig'):
+            violations.append({
+                'clause': 'C05/content', 'detail': {'what': 'oversize'},
+                'msg': 'a message over the size limit gave %r instead of '
+                       'MessageTooBig (variant %s %s)' % (
+                           out.get('exc') or out.get('data', b'')[:40],
+                           mode, param)})
+            return False
+        if out['left'] + out['unread'] != trailing:
+            violations.append({
+                'clause': 'C05/consumption', 'detail': {'what': 'oversize'},
+                'msg': 'after an over-size message %r is left for the '
+                       'command parser, expected %r (variant %s %s)' % (
+                           (out['left'] + out['unread'])[:60],
+                           trailing[:60], mode, param)})
+            return False
+        return True
     if 'exc' in out:
         violations.append({
             'clause': 'C05/content', 'detail': {'what': 'exception'},
